@@ -73,6 +73,13 @@ def cases(tier, seed):
                 cfg = S.cfg_for(setup, agg, "drop", 100, office="H")
                 cfg["alphas"] = [0.5, 0.9] if setup == "ga1" else [0.5, 0.9]
                 out.append(dict(seed=seed, bg=dict(n=n, layout="AA2", partial=3), probes=probes, cfg=cfg))
+    # the feed leaves a result column that is *not* a requested estimand empty for a fully reported unit (and for an
+    # outstanding one): the unit's status and its requested counts are unaffected, under either policy
+    for policy in ("zero", "drop"):
+        for setup, n in (("np1", 24), ("ga1", 16)):
+            for est, blank in ((["turnout"], ["gop"]), (["turnout"], ["gop", "dem"]), (["turnout", "dem"], ["gop"]), (["dem"], ["turnout"])):
+                for loc in ("pop0", "newcounty"):
+                    out.append(dict(seed=seed, bg=dict(n=n, layout="AA2", partial=1), probes=[["reporting", loc], ["nonrep_partial", "pop1"]], blank=blank, cfg=_cfg(setup, "all", policy, est, [], [0.5, 0.9])))
     if tier == "thorough":
         t3 = S.probe_types(statuses=["nonrep_partial", "unexpected", "zero_baseline", "nonrep_exceed", "missing"], locations=["pop0", "newcounty", "newstate"])
         for pr in S.multisets(t3, 2):
@@ -112,6 +119,11 @@ def evaluate(case):
     else:
         units = S.build_units(case)
         cfg = case["cfg"]
+        if case.get("blank"):
+            for u in units:
+                if u["role"] == "probe":
+                    u["nan_cols"] = list(case["blank"])
+            cov["runs_with_blank_non_estimand_column"] += 1
     pm = cfg["pi_method"]
     res = E.run_estimates(units, cfg)
     V = []
@@ -195,5 +207,5 @@ REQUIRED_COUNTERS = {
     "floor_binding_agg_upper": 5,
     "zero_width_groups": 50,
     "bootstrap_final_units": 50,
-    "mixed_model_structures": 20,
+    "mixed_model_structures": 20, "runs_with_blank_non_estimand_column": 20,
 }
